@@ -120,12 +120,20 @@ func init() {
 			if it.t == nil || !isLeaseType(it.t) {
 				ex.unsupported("json.Marshal of %v", it.t)
 			}
+			// the round-trip model stands for encoding/json's reflection-based codec; a
+			// type that brings its own MarshalJSON is not described by it
+			if ex.findMethod(it.t, "MarshalJSON") != nil {
+				ex.unsupported("json.Marshal of %v: the type defines MarshalJSON, which the round-trip model of encoding/json does not execute", it.t)
+			}
 			return tuple{ex.leaseEncode(it.v), iface{}}
 		})
 		e.reg("encoding/json.Unmarshal", func(ex *Exec, fr *frame, args []Value) Value {
 			it := args[1].(iface)
 			if it.t == nil || !isLeaseType(it.t) {
 				ex.unsupported("json.Unmarshal into %v", it.t)
+			}
+			if ex.findMethod(it.t, "UnmarshalJSON") != nil {
+				ex.unsupported("json.Unmarshal into %v: the type defines UnmarshalJSON, which the round-trip model of encoding/json does not execute", it.t)
 			}
 			return ex.leaseDecode(args[0].([]Value), it.v.(*Value))
 		})
